@@ -19,13 +19,20 @@ THEOREMS = [
     "Vinegar.C11.never_partial",
     "Vinegar.C11.preceding_not_merged",
     "Vinegar.C11.merge_key_order",
-    "Vinegar.C11.expand_fuel_adequate_partial",
-    "Vinegar.C11.compile_fuel_adequate_partial",
+    "Vinegar.C11.expand_fuel_adequate",
+    "Vinegar.C11.expand_no_recursion_error",
+    "Vinegar.C11.compile_fuel_adequate",
+    "Vinegar.C11.compile_no_recursion_error",
+    "Vinegar.C11.expand_fuel_adequate_clean",
+    "Vinegar.C11.compile_fuel_adequate_clean",
+    "Vinegar.C11.linear_bound_fails",
+    "Vinegar.C11.aliasTree_result",
 ]
 TRUSTED_BASE = Y.TRUSTED_BASE
 ASSUMPTIONS = Y.ASSUMPTIONS
 RULE = ("case = configuration (merge flags, allow_empty_top, template engine on/off) + top-file spec + tree of file "
-        "specs (styles dag/free/deep/diamond: nested, relative, diamond and cyclic includes, init files, include block "
+        "specs (styles dag/free/deep/diamond/alias: nested, relative, diamond and cyclic includes, init files, several "
+        "names of one file through empty segments (a..b, a., leading dots) incl. self-inclusion without a cycle, include block "
         "at start/middle/end, conflicting keys, Jinja conditionals on id and preceding data, a malformed stream) + system "
         "id + preceding data; non-trivial if at least one data file was reached (result data non-empty or an error below "
         "the top file); distinct by SHA-1 of the whole case")
@@ -80,7 +87,7 @@ def judge(case, obs, resps):
 
 def gen(rng, tier, mult=1):
     n = (1500 if tier == "quick" else 30000) * mult
-    styles = ["dag", "free", "dag", "deep", "diamond", "free"]
+    styles = ["dag", "free", "dag", "deep", "diamond", "free", "alias"]
     for i in range(n):
         yield Y.gen_c11_case(rng, style=styles[i % len(styles)])
 
